@@ -51,6 +51,14 @@ func resign(edit func(cl map[string]any)) func(p *sim.IdP, honest string, claims
 
 var otherNonce = "nonce-of-another-session"
 
+// heldToken is the last honest ID token served to the session that is asking (the fresh one if there is none).
+func heldToken(honest string, call *sim.TokenCall) string {
+	if call != nil && call.Lineage != nil && len(call.Lineage.Honest) > 0 {
+		return call.Lineage.Honest[len(call.Lineage.Honest)-1]
+	}
+	return honest
+}
+
 var forges = func() []forge {
 	ks := sim.Keys
 	hdr := func(p *sim.IdP, alg string, extra map[string]any) map[string]any {
@@ -151,6 +159,33 @@ var forges = func() []forge {
 		{"header-not-json", func(p *sim.IdP, honest string, _ map[string]any, _ *sim.TokenCall) string {
 			_, pl, s := segs(honest)
 			return rawB64([]byte("{not json")) + "." + pl + "." + s
+		}},
+		// the token the session already holds (refresh path; the fresh honest token on the login path), claims
+		// untouched, without a valid signature: nothing about it is new except that nobody signed it
+		{"held-token-alg-none", func(p *sim.IdP, honest string, _ map[string]any, call *sim.TokenCall) string {
+			_, pl, _ := segs(heldToken(honest, call))
+			return rawB64(jsonB(hdr(p, "none", nil))) + "." + pl + "."
+		}},
+		{"held-token-signature-bitflip", func(p *sim.IdP, honest string, _ map[string]any, call *sim.TokenCall) string {
+			h, pl, s := segs(heldToken(honest, call))
+			b, _ := base64.RawURLEncoding.DecodeString(s)
+			b[len(b)/3] ^= 0x40
+			return h + "." + pl + "." + rawB64(b)
+		}},
+		{"held-token-foreign-signature", func(p *sim.IdP, honest string, _ map[string]any, call *sim.TokenCall) string {
+			_, pl, _ := segs(heldToken(honest, call))
+			k := ks()[3]
+			in := rawB64(jsonB(hdr(p, "ES256", nil))) + "." + pl
+			_, _, sg := segs(sim.Compact(hdr(p, "ES256", nil), map[string]any{"x": 1}, k, "ES256"))
+			return in + "." + sg
+		}},
+		{"held-token-signature-of-fresh-token", func(p *sim.IdP, honest string, _ map[string]any, call *sim.TokenCall) string {
+			h, pl, _ := segs(heldToken(honest, call))
+			_, _, s := segs(honest)
+			if heldToken(honest, call) == honest {
+				s = s[:len(s)-3] + "AAA"
+			}
+			return h + "." + pl + "." + s
 		}},
 		// validly signed, unacceptable claims
 		{"aud-absent", resign(func(cl map[string]any) { delete(cl, "aud") })},
